@@ -10,7 +10,14 @@ PROPS_FILE = "C01.v"
 RUN_MODULE = "RunC01"
 TRANSLATOR_UNITS = ["opshape", "derived"]
 SHARD = 250
-RULE = ("exhaustive: every unary/binary operator x operand shapes {u0..u3,s1..s3} x all operand values; "
+RULE = ("[after the audit: + operands that are Python ints / enum members / Const(v) on either side of every binary operator "
+        "(reflected operators), in Cat / Mux / Array / bit_select offsets (stream exi); shift amounts of 4..6 bits and int amounts up to 64 on "
+        "1..40-bit operands (wsh); matches() with Const and enum-member patterns over every value (exm); Array indexing exhaustively "
+        "for index shapes u0..u2,s1..s3 x 0..6 elements (more than addressable, none, int elements) with ArrayProxy.shape()/len() "
+        "observed, Arrays of Arrays indexed twice (arr, exi); documented rejections compared on the exception CLASS: negative "
+        "replicate count, out-of-range index, zero slice step, signed / negative constant offsets and negative widths of "
+        "bit_select/word_select, nested-array int index (rej); random trees over all of these (ext); 5 % 16/33/40-bit operands in "
+        "the quick random stream] exhaustive: every unary/binary operator x operand shapes {u0..u3,s1..s3} x all operand values; "
         "every slice / part-select(all offsets, widths 0..3, strides 1..2) / cat of two / 2-case switch over shapes u0..u3,s1..s3; "
         "derived operators (abs, shifts by any integer, rotates, replicate, matches, int/slice/stepped indexing with every slice object over small bounds, "
         "bit_select/word_select around the fold boundary, Mux, Array) built through "
@@ -23,7 +30,9 @@ MODELLED = ("value nodes of hdl/_ast.py (Const, Signal, Operator, Slice, Part, C
             "_pyeval.eval_value in coq/Model/PyEval.v; the rewriting definitions of abs/shift_*/rotate_*/replicate/matches/__getitem__/"
             "Mux/bit_select/word_select/ArrayProxy.as_value in coq/Model/Derived.v; the Value methods are also REGENERATED from hdl/_ast.py "
             "(translator unit `derived`, Gen/DerivedGen.v) and proved equal to the model; slice.indices/range of CPython are read by "
-            "py_key_indices/py_range and compared with the interpreter (stream pyb); matches()/_normalize_patterns are hand-modelled only."
+            "py_key_indices/py_range and compared with the interpreter (stream pyb); Value.cast of ints / enum members (mk_const_auto, "
+            "mk_enum_const), ArrayProxy.as_value/shape on any index shape (mk_array_raw, array_proxy_shape), nested Arrays and the exception "
+            "class of a rejected construction (build_err) are hand-modelled in coq/Model/Derived.v and validated by the run."
             " exec() of generated code, ValueVisitor dispatch, the delta-cycle "
             "engine and Signal commit are exercised by the differential run only")
 ASSUMPTIONS = ["signals hold normalised values (env_ok), as _PySignalState guarantees"]
